@@ -11,8 +11,15 @@ def run(name):
     d = os.path.join(ROOT, name)
     meta = json.load(open(os.path.join(d, 'meta.json')))
     pid = meta['property']
-    props = [pid] + [p for p in EXTRA.get(pid, []) if os.path.exists('/verif/harness/%s.py' % p.lower())]
+    props = [pid]
+    for q in list(meta.get('checks_that_catch_it') or []) + EXTRA.get(pid, []):
+        if q not in props and os.path.exists('/verif/harness/%s.py' % q.lower()):
+            props.append(q)
     out = subprocess.run(['/verif/tools/try_seed.sh', pid, d] + props[1:], capture_output=True, text=True).stdout
+    if 'patch does not apply' in out:
+        meta['last_run'] = {'patch': 'no longer applies to /repo HEAD (later repairs changed its context); earlier result kept'}
+        json.dump(meta, open(os.path.join(d, 'meta.json'), 'w'), indent=1)
+        return name, pid, meta.get('checks_that_catch_it') or [], meta.get('first_version_missed', False), '[patch no longer applies] ' + meta['needs_to_manifest']
     caught = re.findall(r'SEED check (C\d+): exit 1', out)
     tests = re.search(r'SEED tests with change: (.*)', out)
     demo = re.findall(r'SEED demo (with|without) change: exit (\d+)', out)
@@ -20,11 +27,29 @@ def run(name):
     if not first and caught and 'first_version_missed' not in meta:
         meta['first_version_missed'] = True
     meta['checks_that_catch_it'] = caught
-    meta['last_run'] = {'tests_with_change': tests.group(1) if tests else None, 'demo': dict(demo), 'checks_run': props}
+    how = re.search(r'SEED patch: (.*)', out)
+    meta['last_run'] = {'tests_with_change': tests.group(1) if tests else None, 'demo': dict(demo), 'checks_run': props,
+                        'patch': how.group(1) if how else None}
     json.dump(meta, open(os.path.join(d, 'meta.json'), 'w'), indent=1)
     return name, pid, caught, meta.get('first_version_missed', False), meta['needs_to_manifest']
 
 names = sorted(n for n in os.listdir(ROOT) if os.path.isdir(os.path.join(ROOT, n)) and (not only or n.split('-')[0] in only or n in only))
-with ThreadPoolExecutor(4) as ex:
-    for name, pid, caught, missed1, needs in ex.map(run, names):
+def translated(name):
+    # changes to sources the translator reads rewrite coq/Gen/*.v while they are checked: one at a time
+    txt = open(os.path.join(ROOT, name, 'patch.diff')).read()
+    return bool(re.search(r'^\+\+\+ b/biom/(err\.py|util\.py|_\w+\.pyx)', txt, re.M))
+
+par = [n for n in names if not translated(n)]
+ser = [n for n in names if translated(n)]
+
+def results():
+    with ThreadPoolExecutor(3) as ex:
+        for r in ex.map(run, par):
+            yield r
+    for n in ser:
+        yield run(n)
+    subprocess.run(['/verif/tools/regen.sh'], capture_output=True)
+
+if True:
+    for name, pid, caught, missed1, needs in results():
         print('| %s | %s | %s%s | %s |' % (name, pid, ','.join(caught) or 'MISSED', ' (missed by the first version)' if missed1 else '', needs[:110]))
